@@ -77,7 +77,7 @@ def loop_domain(ip, rec):
     from . import stdsum
     for hv, ev in rec['mapping']:
         it0 = ip.iter_heads.get(hv)
-        if it0 is None or it0.zipped is not None or 'rev' in it0.kind or 'filter' in it0.kind:
+        if it0 is None or it0.zipped is not None or 'rev' in it0.kind or 'filter' in it0.kind or 'filter_map' in it0.kind:
             continue      # (map / take_while / inspect closures keep one position per step; a filter does not)
         if not is_counter(ip, rec, hv):
             continue
